@@ -426,6 +426,15 @@ def main(pid: str, argv):
     impl_res, err = (mod.run_impl_custom(cases) if hasattr(mod, "run_impl_custom")
                      else run_impl_parallel(pid, cases))
     stats = {"cases": len(cases), "corpus_cases": len(corpus)}
+    # history independence of the implementation itself: the same cases in REVERSE order in a second
+    # fresh interpreter must give identical answers (catches process-wide state such as caches)
+    order_diff = []
+    if not err and not hasattr(mod, "run_impl_custom") and not getattr(mod, "NO_REORDER", False):
+        rev, err2 = run_impl(pid, list(reversed(cases)), tag="_rev")
+        if not err2:
+            rev = list(reversed(rev))
+            order_diff = [i for i, (a, b) in enumerate(zip(impl_res, rev)) if a != b]
+            stats["reordered_rerun_compared"] = len(cases)
     classes = {}
     nontrivial = set()
     skipped = 0
@@ -471,6 +480,12 @@ def main(pid: str, argv):
             if not mod.agree(c, r, o):
                 mism.append(i)
         mism = sorted(set(mism))
+        for i in order_diff[:3]:
+            if i not in mism:
+                violation({"property": pid, "kind": "answer-depends-on-call-history", "case": cases[i],
+                           "implementation": impl_res[i], "implementation_in_reversed_run": rev[i],
+                           "note": "the same case gave different answers in two fresh interpreters that ran the "
+                                   "generated cases in opposite orders; both runs are recorded here"})
 
     # 4. classify disagreements
     reported = 0
